@@ -32,7 +32,8 @@ def showLObss (l : List LObs) : String :=
   | _ => join (l'.map showLObs) " ; "
 
 def parseCause : String → Option EndCause
-  | "transient" => some .transient | "closed" => some .closed
+  | "transient" => some .transient | "transient-held" => some .transient   -- (its re-request stays in flight for a while: same model step)
+  | "closed" => some .closed
   | "final" => some .final | "clean" => some .clean | _ => none
 
 def parseLOp : List String → Option LOp
@@ -67,13 +68,19 @@ def isCb (t : String) : Bool := ["BRS","ARS","BRE","ARE","BSS","ASS","BSP","ASP"
 structure LMon where
   cb : Nat := 0
   bad : Bool := false
+  /-- vBuckets requested in the last `BSS … ASS` block (the assignment of the current session) -/
+  assigned : List Nat := []
+  /-- vBuckets whose stream has finally ended in the current session -/
+  ended : List Nat := []
+  stopped : Bool := false
+  /-- the server ended one vBucket stream for good twice in one session: outside C12's quantifier (`EndsOnce`) -/
+  tainted : Bool := false
 deriving Repr, Inhabited
 
 /-- feed the tokens of one real observation; returns the verdict for the line -/
 def lmonStep (m : LMon) (op : List String) (real : String) : LMon × String :=
-  if real == "-" then (m, "ok") else
-  let toks := (real.splitOn " ; ").map fun t => ((t.splitOn " ").headD "")
-  let full := real.splitOn " ; "
+  let full := if real == "-" then [] else real.splitOn " ; "
+  let toks := full.map fun t => ((t.splitOn " ").headD "")
   let rec go (st : Nat) (ts : List String) (v : String) : Nat × String :=
     match ts with
     | [] => (st, v)
@@ -86,6 +93,31 @@ def lmonStep (m : LMon) (op : List String) (real : String) : LMon × String :=
         go st r (if st == 2 || v != "ok" then v else "FAIL C11.no-delivery-while-closed")
       else go st r v
   let (st', v) := go m.cb toks "ok"
+  -- C12: the session's assignment = the requests of the last BSS…ASS block; final ends are counted per vBucket;
+  -- the stream stops on its own exactly when the last assigned vBucket has finally ended
+  let reqs := full.filterMap fun t => match t.splitOn " " with
+    | ["openreq", vb, _] => vb.toNat?
+    | _ => none
+  let m1 := if toks.contains "BSS" then { m with assigned := reqs.eraseDups, ended := [], tainted := false } else m
+  let isFinalEnd := match op with
+    | ["lf-end", _, c] => c != "transient" && c != "transient-held"
+    | _ => false
+  let endVb := match op with | ["lf-end", vb, _] => vb.toNat? | _ => none
+  let m2 := match isFinalEnd, endVb with
+    | true, some vb =>
+      if st' == 2 && m1.assigned.contains vb then
+        if m1.ended.contains vb then { m1 with tainted := true } else { m1 with ended := m1.ended ++ [vb] }
+      else m1
+    | _, _ => m1
+  let sawStop := toks.contains "stop"
+  let allEnded := !m2.assigned.isEmpty && m2.assigned.all (m2.ended.contains ·)
+  let v :=
+    if v != "ok" then v
+    else if m2.tainted then v
+    else if sawStop && !m2.stopped && op.head? == some "lf-end" && !allEnded then "FAIL C12.stopped-before-all-ended"
+    else if isFinalEnd && allEnded && !sawStop && !m2.stopped && st' == 2 then "FAIL C12.not-stopped-when-all-ended"
+    else v
+  let m := { m2 with stopped := m2.stopped || sawStop }
   let v :=
     if v != "ok" then v
     else if full.contains "failstop:nil-observers" && op.head? == some "lf-shutdown" then
@@ -107,13 +139,25 @@ def hTrail (args : List String) (real : Option String) : Option Out :=
              | some r => if r == "writes-after-close=0" then "ok" else "FAIL C13.save-after-close" }
   | _ => none
 
-def lifeHandlers : List (String × (List String → Option String → Option Out)) := [("lf-trail", hTrail)]
+/-- `c16-race KIND NVB EVENTS`: a scrape landing inside `Close`, spanning it, after it, or inside a rebalance
+    window neither blocks nor crashes (C16, last clause; `closed_scrape_is_empty_and_total`: the model's scrape is total) -/
+def hScrapeRace (args : List String) (real : Option String) : Option Out :=
+  match args with
+  | [kind, _, _] =>
+    let model := if kind == "rebalance-window" then "ok,ok" else "ok"
+    some { model, verdict := match real with
+      | none => "-"
+      | some r => if r == model then "ok" else "FAIL C16.scrape-crashes-or-blocks" }
+  | _ => none
+
+def lifeHandlers : List (String × (List String → Option String → Option Out)) :=
+  [("lf-trail", hTrail), ("c16-race", hScrapeRace)]
 
 def lifeLine (s : LSt) (m : LMon) (ts : List String) (real : Option String) : Option (LSt × LMon × String × String) :=
   match ts with
   | ["lf-reset", d, dyn, auto] =>
     match d.toNat? with
-    | some dl => some ({ delay := dl, dynamic := dyn == "1", auto := auto == "1" }, {}, "ok", "-")
+    | some dl => some ({ delay := dl, dynamic := dyn == "1", auto := auto == "1" }, ({} : LMon), "ok", "-")
     | none => some (s, m, "bad-op", "-")
   | _ =>
     match parseLOp ts with
